@@ -219,6 +219,12 @@ bool Instance::setup_environment(unsigned int flags) {
     env->tce = tce;
     env->allow_disabled_opcodes = allow_disabled_opcodes;
 
+    if (env->operational && successor_script.size() && (flags & SCRIPT_VERIFY_SIGPUSHONLY) && !script.IsPushOnly()) {
+        // the script is a scriptSig (a scriptPubKey follows it): SIGPUSHONLY rejects it before anything is executed
+        error = SCRIPT_ERR_SIG_PUSHONLY;
+        env->operational = false;
+    }
+
     if (env->operational && sigver == SigVersion::TAPSCRIPT) {
         // BIP342: a tapscript containing an OP_SUCCESSx opcode is valid unconditionally and is never
         // executed; stepping it with the legacy meaning of those opcodes would show a different result.
